@@ -288,10 +288,19 @@ package parse
 //@ extern encoding/base64.(*Encoding).Decode
 //@   readonly #0 #2
 //@   ensures[S] 0 <= n && n <= len(dst)
+// u8len(r): the documented definition of utf8.RuneLen (-1 for surrogates and values outside [0, U+10FFFF])
+//@ pred u8len(r) := ite(r < 0, -1, ite(r < 128, 1, ite(r < 2048, 2, ite(55296 <= r && r <= 57343, -1, ite(r < 65536, 3, ite(r <= 1114111, 4, -1))))))
+//@ pred u8enc(r) := ite(u8len(r) == -1, 3, u8len(r))
 //@ extern unicode/utf8.RuneLen
+//@   pure
 //@   ensures[S] -1 <= result && result <= 4 && result != 0
+//@   ensures[S] result == u8len(r) && (result == -1 || result == 1 || result == 2 || result == 3 || result == 4)
+// EncodeRune panics when p is too short (it indexes p[n-1] first); an invalid rune is written as U+FFFD (3 bytes)
 //@ extern unicode/utf8.EncodeRune
-//@   ensures[S] 1 <= result && result <= 4
+//@   modifies M.uint8
+//@   requires[S] @room: len(p) >= u8enc(r)
+//@   ensures[S] 1 <= result && result <= 4 && result == u8enc(r)
+//@   ensures[S] @frame: sameBytesExcept(ptr(p), ptr(p) + result)
 //@ extern unicode/utf8.DecodeRune
 //@   ensures[S] 0 <= size && size <= 4 && size <= len(p) && (len(p) > 0 ==> size >= 1)
 //@ extern unicode/utf8.DecodeLastRune
